@@ -17,6 +17,8 @@
 (*       nobody else's, with the range's lease time; none when exhausted    *)
 (*  C14  a request naming another server is discarded; replies carry this   *)
 (*       server's identifier                                                *)
+(*  C11  OFFER for DISCOVER, ACK (or NAK) for REQUEST, nothing for DECLINE / *)
+(*       RELEASE / INFORM - whatever address the client says it wants       *)
 (*  C17  netmask / router / dns from exactly the plugins that ran; the      *)
 (*       default lease time only when none is set yet                       *)
 (***************************************************************************)
@@ -63,6 +65,8 @@ TraceMsg ==
                  /\ e.sent => /\ e.type = (IF e.mt = "discover" THEN "offer" ELSE "ack")
                               /\ e.lease = r.lease /\ eo = r.opts
                               /\ ("sid" \in eo) => e.sidok
+            /\ ("C11" \in Lens /\ e.sent) =>                                   \* an OFFER for a DISCOVER, an ACK (or NAK) for a REQUEST
+                 e.type \in (IF e.mt = "discover" THEN {"offer"} ELSE {"ack", "nak"})
             /\ ("C10" \in Lens /\ listed /\ r.sent) =>                       \* (r.sent: not discarded before file ran)
                  /\ e.sent /\ e.yi = static[c]
                  /\ \A p \in {"dns", "router", "netmask"} : (Pos(p) > Pos("file")) => p \notin eo    \* ending the chain
